@@ -62,7 +62,7 @@ def h_cgw(ctx, cfg):
         ctx.prove(f"C19:th_fc_Adj[{i}] = th_s for a compartment centred below the table",
                   Implies(float(base.zMid[i]) >= zgw, approx(fca[i], float(base.th_s[i]), 1e-12)))
     any_below = Or(*[float(base.zMid[i]) >= zgw for i in range(n)])
-    ctx.prove("C19:wt_in_soil <=> some compartment centre at or below the table", (wt_in == True) == any_below if not isinstance(wt_in, bool) else (any_below if wt_in else Not(any_below)))
+    ctx.prove("C16,C19:wt_in_soil <=> some compartment centre at or below the table (groundwater_inflow indexes the first such compartment)", (wt_in == True) == any_below if not isinstance(wt_in, bool) else (any_below if wt_in else Not(any_below)))
     ctx.prove("C19:reported table depth = today's configured depth", approx(z2, zgw, 0))
     if ctx.feasible(any_below):
         ctx.reach("table-in-profile")
